@@ -24,6 +24,8 @@ import (
 	"encoding/hex"
 	"encoding/json"
 	"fmt"
+	"os"
+	"path/filepath"
 	"sort"
 	"strings"
 
@@ -226,6 +228,13 @@ func emitSections(out *Out, cdc codec.Codec, what string, a, b map[string]json.R
 		if set {
 			sa, sb = asSet(sa), asSet(sb)
 		}
+		if !bytes.Equal(sa, sb) { // keep both documents next to ops.txt for whoever reads the replay
+			if dir := argAfter("-out"); dir != "" {
+				base := filepath.Join(dir, fmt.Sprintf("differs-%s-%s-%d", what, m, out.N))
+				os.WriteFile(base+"-before.json", sa, 0o644)
+				os.WriteFile(base+"-after.json", sb, 0o644)
+			}
+		}
 		out.Emit(fmt.Sprintf("chk docEq tag=%s.%s bytes=%d diff=%s | %s %s", what, m, len(sa), diffPath(sa, sb), digest(sa), digest(sb)), "true", what, len(sa) > 40)
 	}
 }
@@ -244,7 +253,10 @@ func stripHeights(v interface{}) interface{} {
 	case map[string]interface{}:
 		out := map[string]interface{}{}
 		for k, e := range x {
-			if k == "height" {
+			// height: the two chains are one block apart; current_epoch_start_height: the stated re-base (judged
+			// exactly by `epochsRebased` on the export); symmetry_*: clp's symmetry threshold is not part of the
+			// genesis format (reported as an observation by observationQueries)
+			if k == "height" || k == "current_epoch_start_height" || k == "symmetry_threshold" || k == "symmetry_ratio_threshold" {
 				continue
 			}
 			out[k] = stripHeights(e)
@@ -261,6 +273,10 @@ func stripHeights(v interface{}) interface{} {
 }
 
 func runQuery(app *sifapp.SifchainApp, cdc codec.Codec, q queryCase) []byte {
+	return runQueryOpt(app, cdc, q, true)
+}
+
+func runQueryOpt(app *sifapp.SifchainApp, cdc codec.Codec, q queryCase, strip bool) []byte {
 	bz, err := proto.Marshal(q.req)
 	if err != nil {
 		return []byte("req-error")
@@ -280,6 +296,13 @@ func runQuery(app *sifapp.SifchainApp, cdc codec.Codec, q queryCase) []byte {
 	var v interface{}
 	if json.Unmarshal(js, &v) != nil {
 		return js
+	}
+	if !strip {
+		if m, ok := v.(map[string]interface{}); ok {
+			delete(m, "height")
+		}
+		o, _ := json.Marshal(v)
+		return o
 	}
 	o, _ := json.Marshal(stripHeights(v))
 	return o
@@ -336,6 +359,7 @@ func observationQueries() []queryCase {
 		{"margin.status(MTPCount/OpenMTPCount)", "/sifnode.margin.v1.Query/GetStatus", &margintypes.StatusRequest{}, func() proto.Message { return &margintypes.StatusResponse{} }},
 		{"margin.whitelist", "/sifnode.margin.v1.Query/GetWhitelist", &margintypes.WhitelistRequest{}, func() proto.Message { return &margintypes.WhitelistResponse{} }},
 		{"admin.params", "/sifnode.admin.v1.Query/GetParams", &admintypes.GetParamsRequest{}, func() proto.Message { return &admintypes.GetParamsResponse{} }},
+		{"clp.params(symmetry threshold)", "/sifnode.clp.v1.Query/GetParams", &clptypes.ParamsReq{}, func() proto.Message { return &clptypes.ParamsRes{} }},
 	}
 }
 
@@ -345,7 +369,7 @@ func emitQueries(out *Out, cdc codec.Codec, what string, a, b *sifapp.SifchainAp
 		out.Emit(fmt.Sprintf("chk docEq tag=%s.query.%s bytes=%d diff=%s | %s %s", what, sanitize(q.name), len(ra), diffPath(ra, rb), digest(ra), digest(rb)), "true", "query", len(ra) > 30)
 	}
 	for _, q := range observationQueries() {
-		ra, rb := runQuery(a, cdc, q), runQuery(b, cdc, q)
+		ra, rb := runQueryOpt(a, cdc, q, false), runQueryOpt(b, cdc, q, false)
 		if !bytes.Equal(ra, rb) {
 			obs["not-carried:"+q.name]++
 		}
